@@ -81,6 +81,36 @@ fn explore(run: &mut Run, family: u8) {
             let start = crate::model::text::read_fen(fen).expect("shuffle fen");
             hash_collisions(ctx, name, &start, alpha, 200_000);
         });
+        // en-passant look-alikes on every file, for both colours: a pawn that may step once twice
+        // or double-step (mark set because an enemy pawn stands beside the target), kings shuffle
+        run.par_shards("HASHCOLL: en-passant look-alikes on each of the 8 files x 2 colours", 16, |ctx, i| {
+            use crate::model::*;
+            let file = (i / 2) as i32;
+            let white = i % 2 == 0;
+            let nb = if file == 0 { 1 } else { file - 1 };
+            let mut p = Pos::empty();
+            p.b[sq(4, 0)] = K;
+            p.b[sq(4, 7)] = K | BLACK;
+            if white {
+                p.b[sq(file, 1)] = P;
+                p.b[sq(nb, 3)] = P | BLACK;
+                p.stm = 0;
+            } else {
+                p.b[sq(file, 6)] = P | BLACK;
+                p.b[sq(nb, 4)] = P;
+                p.stm = 1;
+            }
+            let sqn = crate::model::text::sq_name;
+            let (r0, r1, r2) = if white { (1, 2, 3) } else { (6, 5, 4) };
+            let alpha: Vec<String> = vec![
+                format!("{}{}", sqn(sq(file, r0)), sqn(sq(file, r2))),
+                format!("{}{}", sqn(sq(file, r0)), sqn(sq(file, r1))),
+                format!("{}{}", sqn(sq(file, r1)), sqn(sq(file, r2))),
+                "e1d1".into(), "d1e1".into(), "e8d8".into(), "d8e8".into(), "e1f1".into(), "f1e1".into(), "e8f8".into(), "f8e8".into(),
+            ];
+            let refs: Vec<&str> = alpha.iter().map(|x| x.as_str()).collect();
+            hash_collisions(ctx, "en-passant look-alikes per file", &p, &refs, 50_000);
+        });
     }
 }
 
